@@ -58,13 +58,21 @@ Definition split_last (s : word) : option (word * word) := split_last_aux s [] N
 
 (* which file pattern the listing applies in a channel directory holding the given kinds of
    properties files (list_drf.py 165-175); the bool says "yielding a metadata channel" *)
-Definition file_regex (has_drf has_dmd : bool) (f : flags) : option (re * bool) :=
+Inductive fsel := FFile | FDrfFile | FDmdFile.
+
+Definition fsel_re (x : fsel) : re :=
+  match x with FFile => l_re_file | FDrfFile => l_re_drffile | FDmdFile => l_re_dmdfile end.
+
+Definition file_sel (has_drf has_dmd : bool) (f : flags) : option (fsel * bool) :=
   let yd := has_drf && inc_drf f in
   let ym := has_dmd && inc_dmd f in
-  if yd && ym then Some (l_re_file, true)
-  else if yd then Some (l_re_drffile, false)
-  else if ym then Some (l_re_dmdfile, true)
+  if yd && ym then Some (FFile, true)
+  else if yd then Some (FDrfFile, false)
+  else if ym then Some (FDmdFile, true)
   else None.
+
+Definition file_regex (has_drf has_dmd : bool) (f : flags) : option (re * bool) :=
+  option_map (fun p : fsel * bool => (fsel_re (fst p), snd p)) (file_sel has_drf has_dmd f).
 
 (* which properties pattern the listing applies (list_drf.py 325-333) *)
 Definition prop_regex (f : flags) : option re :=
@@ -101,6 +109,9 @@ Definition linfo_of (p : word) : linfo :=
             (matches listing_ci l_re_drfpropfile base) (matches listing_ci l_re_dmdpropfile base)
             (matches listing_ci l_re_propfile base) true
   end.
+
+Definition li_sel (li : linfo) (x : fsel) : option tinfo :=
+  match x with FFile => li_file li | FDrfFile => li_drf li | FDmdFile => li_dmd li end.
 
 Definition timed_ok (st en : option Z) (o : option tinfo) : bool :=
   match o with Some (Time t) => in_window st en t | _ => false end.
